@@ -18,7 +18,7 @@ class Cfg:
         self.ctor = c[0][-1] if not c[0][-1].isdigit() else ''     # how the processor is built (see d_batch.cc)
         self.maxq, self.maxb, self.nprod, self.adds = int(c[0].rstrip('rfga')), int(c[1]), int(c[2]), int(c[3])
         self.fl = '' if c[4] == '-' else c[4]
-        self.nshut = int(c[5])
+        self.nshut = int(c[5].split(':')[0])      # <n> or <n>:<one timeout char per Shutdown caller>
         self.xs = '' if c[6] == '-' else c[6]
         self.acts = toks[1:]
         self.nthreads = 1 + self.nprod + len(self.fl) + self.nshut
@@ -205,7 +205,13 @@ def gen_schedules(rng, tier, kinds=('bsp', 'blp'), flush=True, shut=True):
                 toks.append(f't{t}')
         # every way of building the processor (two / three constructors, two factory overloads) must configure the same one
         ctor = rng.choice(['', '', 'r', 'f', 'g'] + (['a'] if kind == 'blp' else []))
-        line = f'{kind} {maxq}{ctor} {maxb} {nprod} {adds} {fl or "-"} {nshut} {xs} ; ' + ' ; '.join(toks)
+        # Shutdown callers with a finite timeout (a quarter / half / one schedule_delay, or zero): the timeout bounds the
+        # caller's patience, never what is exported - the virtual clock moves when a timed wait expires (`o<i>`)
+        shtok = str(nshut)
+        if nshut and rng.random() < 0.4:
+            shtok = f'{nshut}:' + ''.join(rng.choice('i0124') for _ in range(nshut))
+            toks = [(f'o{rng.choice([0] + list(range(1 + nprod, nth)))}' if rng.random() < 0.08 else t) for t in toks]
+        line = f'{kind} {maxq}{ctor} {maxb} {nprod} {adds} {fl or "-"} {shtok} {xs} ; ' + ' ; '.join(toks)
         out.append(Case(line, 'd_bsp' if kind == 'bsp' else 'd_blp', (kind, 'random', f'fl{len(fl)}sh{nshut}', 'ctor-' + (ctor or 'plain'))))
     return out
 
